@@ -216,7 +216,103 @@ pub fn replay(path: &str) -> i32 {
   }
 }
 
-pub fn selftest(_args: &[String]) -> i32 {
-  println!("selftest: not yet implemented");
-  2
+/// `fibsim selftest determinism [--runs N]`: every lane of every registered check is scanned
+/// three times (1 worker in this process, 16 workers in this process, 3 workers in a fresh child
+/// process) in survey mode; the per-run event-log hashes (decision trace, steps, PRNG draws,
+/// virtual time, reached states, violation signatures) must be identical run by run.
+/// `fibsim selftest hashes <property> <lane> <runs> <jobs>` prints one lane's hashes (child mode).
+pub fn selftest(args: &[String]) -> i32 {
+  use crate::core::batch::LaneCfg;
+  use crate::core::check::lane_seed;
+  use crate::core::known::Known;
+  let known = Known::default();
+  let all = ["C01", "C02", "C03", "C04", "C05", "C06", "C07", "C08", "C09", "C10", "C11", "C12", "C13", "C14", "C15", "C16", "C17", "C18", "C19", "C20"];
+  let scan = |prop: &str, li: usize, runs: u64, jobs: usize| -> Option<Vec<(u64, u64)>> {
+    let spec = check_spec(prop)?;
+    let l = spec.lanes.get(li)?;
+    let cfg = LaneCfg {
+      lane: l.name.clone(),
+      property: prop.to_string(),
+      batch_seed: lane_seed(20260923, li),
+      runs,
+      jobs,
+      stop_on_first: false,
+      replay_dir: String::new(),
+      shrink_budget: 0,
+      survey: true,
+      part: None,
+      lane_index: li,
+      tier_quick: true,
+      collect_hashes: true,
+    };
+    let r = (l.runner)(&cfg, &known);
+    let mut h = r.stats.run_hashes;
+    h.sort();
+    Some(h)
+  };
+  match args.get(1).map(|s| s.as_str()) {
+    Some("hashes") => {
+      let prop = &args[2];
+      let li: usize = args[3].parse().unwrap();
+      let runs: u64 = args[4].parse().unwrap();
+      let jobs: usize = args[5].parse().unwrap();
+      match scan(prop, li, runs, jobs) {
+        Some(h) => {
+          let mut acc = crate::core::rng::FNV_OFFSET;
+          for (i, x) in &h {
+            acc = crate::core::rng::fnv1a(crate::core::rng::fnv1a(acc, *i), *x);
+          }
+          println!("HASHES {} {:016x}", h.len(), acc);
+          0
+        }
+        None => 2,
+      }
+    }
+    Some("determinism") => {
+      let mut runs = 3000u64;
+      if let Some(p) = args.iter().position(|a| a == "--runs") {
+        runs = args[p + 1].parse().unwrap_or(runs);
+      }
+      let mut bad = 0;
+      let mut lanes = 0;
+      for prop in all {
+        let Some(spec) = check_spec(prop) else { continue };
+        for li in 0..spec.lanes.len() {
+          // the starvation lane has few, long runs
+          let n = runs.min(spec.lanes[li].quick_runs);
+          let a = scan(prop, li, n, 1).unwrap();
+          let b = scan(prop, li, n, 16).unwrap();
+          let mut acc = crate::core::rng::FNV_OFFSET;
+          for (i, x) in &a {
+            acc = crate::core::rng::fnv1a(crate::core::rng::fnv1a(acc, *i), *x);
+          }
+          let child = std::process::Command::new(std::env::current_exe().unwrap())
+            .args(["selftest", "hashes", prop, &li.to_string(), &n.to_string(), "3"])
+            .output();
+          let child_line = child.ok().map(|o| String::from_utf8_lossy(&o.stdout).lines().filter(|l| l.starts_with("HASHES")).last().unwrap_or("").to_string()).unwrap_or_default();
+          let want = format!("HASHES {} {:016x}", a.len(), acc);
+          lanes += 1;
+          let same_jobs = a == b;
+          let same_proc = child_line == want;
+          if !same_jobs || !same_proc {
+            bad += 1;
+            let first = a.iter().zip(b.iter()).find(|(x, y)| x != y).map(|(x, _)| x.0);
+            println!("DETERMINISM-DIVERGENCE property={prop} lane={} jobs1-vs-jobs16-equal={same_jobs} fresh-process-equal={same_proc} first_diverging_run={first:?}", spec.lanes[li].name);
+          } else {
+            println!("  determinism ok: {prop} lane {:<32} {} runs x 3 executions (1 worker, 16 workers, fresh process with 3 workers)", spec.lanes[li].name, a.len());
+          }
+        }
+      }
+      println!("selftest determinism: {lanes} lanes, {bad} divergent");
+      if bad > 0 {
+        2
+      } else {
+        0
+      }
+    }
+    _ => {
+      println!("usage: fibsim selftest determinism [--runs N]");
+      2
+    }
+  }
 }
